@@ -828,6 +828,13 @@ class ProductStack:
             cacheOkay = out._tryCache(dbpath, dbpath, flavors)
             if cacheOkay:
                 out._loadUserTags(userTagDir)
+                if persistDir and os.path.abspath(persistDir) != os.path.abspath(dbpath):
+                    # loaded from the shared cache of the database directory: persist into our own
+                    # directory, as promised above.  Without a file of our own (whose time we have
+                    # recorded) neither ensureInSync() nor save() can tell that another instance
+                    # has rewritten it, and a stale copy would be saved over the other's update.
+                    out._flavorsUpdated(flavors)
+                    if updateCache:  out.save()
 
         if not cacheOkay:
             out.refreshFromDatabase(userTagDir)
